@@ -89,3 +89,17 @@ def run_part(chk, binary, behs, prelude="basic", span=6, shards=4, label=None):
     if never is not None:
         chk.cov.setdefault("never_populated", {})[prelude] = sorted(never)
     return recs
+
+
+def run_all(chk):
+    """Everything for the DPoS part: build the driver, generate behaviours with TLC, run the checkpoint mode, absorb."""
+    binary = build()
+    out = []
+    for prelude, behs in default_behaviours(chk):
+        out += run_part(chk, binary, behs, prelude=prelude)
+    chk.assumptions += [
+        "C23 DPoS part: check points are taken with state.NewCheckpoint(arbiters).Serialize and restored with Deserialize + OnInit "
+        "(RecoverFromCheckPoints) in memory; the file handling of core/checkpoint (channels, file names, periods) is not exercised; "
+        "fields listed under coverage.never_populated were zero in every snapshot and are not claimed",
+    ]
+    return out
